@@ -11,7 +11,9 @@ Streams (driver ops of lean/SRVerif/Driver/C12Json.lean: c12j_render, c12j_parse
                         hypothesis removed by Properties/C12Json.lean said — a failure is a VIOLATION of C12: the
                         written line would not read back).  Tie: render(d) == json.dumps(d) byte for byte; parse agrees
                         with json.loads on it and on its variants; c12j_dict (dictOfJ, then dictToJ, then render —
-                        the glue used by the theorems) returns json.dumps(d) again.
+                        the glue used by the theorems) returns json.dumps(d) again, up to the order in which
+                        to_dict() builds the keys of the two fixed-key objects (counted, a note: a JSON object is
+                        unordered and the property does not speak about key order).
   * random values       nested lists / dicts (depth <= 4, empty containers, empty strings and keys) over an
                         adversarial string alphabet (quote, backslash, slash, the seven short escapes, other control
                         characters, DEL, U+0080, Latin-1, U+2028, U+D7FF, U+E000, U+FFFF, U+10000, U+10FFFF, letters that
@@ -272,6 +274,25 @@ def dicts_of(rec):
     return [x.to_dict() for x in outs[:3]]
 
 
+INPUT_KEYS = ["object_tree", "species_tree", "leaf_object_species", "costs", "leaf_syntenies"]
+OUTPUT_KEYS = ["input", "object_species", "syntenies", "ordered"]
+
+
+def model_key_order(d):
+    """The real dictionary with the keys that dictToJ knows in dictToJ's order (the order of the pinned to_dict());
+    the mappings keep their own order (dictOfJ keeps it); any other key is kept, at the end (dictOfJ drops it, so the
+    comparison still fails on it)."""
+    def reorder(m, keys):
+        return {**{k: m[k] for k in keys if k in m}, **{k: x for k, x in m.items() if k not in keys}}
+
+    if not isinstance(d, dict):
+        return d
+    out = reorder(d, OUTPUT_KEYS)
+    if isinstance(out.get("input"), dict):
+        out["input"] = reorder(out["input"], INPUT_KEYS)
+    return out
+
+
 def check_values(ctx, res, items, rng):
     """items: (record, value, is_real_dictionary).  Builds the requests, runs the driver, judges."""
     reqs, plan = [], []
@@ -303,11 +324,20 @@ def check_values(ctx, res, items, rng):
                 res.dist["json render: equal to json.dumps"] += 1
         elif p[0] == "dict":
             _, rec, v, plain = p
-            if out != plain:
-                res.tie_broken("render(dictToJ(dictOfJ(d))) differs from json.dumps(d) on a real to_dict()", rec,
-                               model=out, impl=plain)
-            else:
+            canon = json.dumps(model_key_order(v))
+            if out == plain:
                 res.dist["json dictOfJ/dictToJ: real dictionary reproduced"] += 1
+            elif out == canon:
+                # same dictionary, the keys of `to_dict()` come in another order than dictToJ writes them: a JSON
+                # object is unordered, from_dict looks its keys up by name, the property does not speak about key order
+                res.dist["json dictOfJ/dictToJ: real dictionary reproduced up to the order of the to_dict() keys"] += 1
+                c12_bridge.note_once(res, "to_dict() builds its keys in another order than the model's dictToJ "
+                                          "(Model/Json.lean follows the pinned source): the written TEXT of the "
+                                          "theorems is the code's text up to the order of the keys of an object; "
+                                          "compared as dictionaries, not an alarm")
+            else:
+                res.tie_broken("render(dictToJ(dictOfJ(d))) differs from json.dumps(d) on a real to_dict() (compared "
+                               "up to the order of the to_dict() keys)", rec, model=out, impl=canon)
         else:
             _, rec, label, text = p
             judge_parse(res, rec, label, text, loads_both(text), out)
